@@ -245,9 +245,19 @@ def _lake_lock():
 
 
 def run_cmd(cmd, cwd=None, timeout=3600, inp=None):
-    p = subprocess.run(cmd, cwd=cwd, stdout=subprocess.PIPE, stderr=subprocess.STDOUT, text=True,
-                       timeout=timeout, input=inp)
-    return p.returncode, p.stdout
+    # own process group: on a timeout the whole tree (lake -> lean --run) goes, not only the direct child
+    p = subprocess.Popen(cmd, cwd=cwd, stdin=subprocess.PIPE if inp is not None else None, stdout=subprocess.PIPE,
+                         stderr=subprocess.STDOUT, text=True, start_new_session=True)
+    try:
+        out, _ = p.communicate(inp, timeout=timeout)
+    except subprocess.TimeoutExpired:
+        try:
+            os.killpg(p.pid, signal.SIGKILL)
+        except OSError:
+            pass
+        p.wait()
+        raise
+    return p.returncode, out
 
 
 def translate(gens):
